@@ -22,13 +22,14 @@ func methodOf3(i int) string {
 }
 
 type c11State struct {
-	set      RouteSet // with methods assigned
-	p        *probeRouter
-	ref      *refRouter
-	ignore   map[string]bool // method+" "+pattern -> ignores trailing slash
-	noMethod bool
-	autoOpts bool
-	methods  []string
+	set                    RouteSet // with methods assigned
+	p                      *probeRouter
+	ref                    *refRouter
+	ignore                 map[string]bool // method+" "+pattern -> ignores trailing slash
+	noMethod               bool
+	autoOpts               bool
+	methods                []string
+	primeMethod, primePath string
 }
 
 func SetupC11Serve() any {
@@ -47,6 +48,28 @@ func SetupC11Serve() any {
 	st.ref = newRefRouter(st.set)
 	for _, m := range st.ref.methods {
 		st.methods = append(st.methods, m.name)
+	}
+	// a priming request served through an ignored trailing slash with parameters (leaves trailing-slash state
+	// and parameters in the pooled context that the request under test will reuse)
+	for _, rt := range st.set.Routes {
+		if !st.ignore[rt.Method+" "+rt.Pattern] || rt.Pattern[0] != '/' {
+			continue
+		}
+		ps := []kv{}
+		for _, t := range tokens(rt.Pattern) {
+			if t.kind != tkStatic {
+				ps = append(ps, kv{t.name, "pv"})
+			}
+		}
+		if len(ps) == 0 {
+			continue
+		}
+		direct, _ := substitute(rt.Pattern, ps)
+		cand := toggleSlash(direct)
+		if how, _ := st.serves(rt.Method, "", cand); how == 2 {
+			st.primeMethod, st.primePath = rt.Method, cand
+			break
+		}
 	}
 	return st
 }
@@ -129,6 +152,11 @@ func HarnessC11Serve(st any) {
 	}
 	if ambiguous {
 		return
+	}
+	if s.primePath != "" {
+		pg, _, _ := s.p.serve(&http.Request{Method: s.primeMethod, Host: "", URL: &url.URL{Path: s.primePath}})
+		sym.Assert(pg.kind == "route", "priming request served through an ignored trailing slash")
+		sym.Cover("primed with an ignored trailing-slash match")
 	}
 	got, status, allowHdr := s.p.serve(req)
 
